@@ -1,7 +1,9 @@
 (* C14 reference: what the identifier iterators of a tree are supposed to list, written as plain
    structural recursion over the tree (no stack, no loop), the classes of identifier occurrences,
-   and the renaming of trees, contexts and results by a function on identifier strings. *)
+   the renaming of trees, contexts and results by a function on identifier strings, and the identifier
+   occurrences of a token sequence (source order; this last part uses the grammar of Spec/Grammar.v). *)
 Require Import Model.Base Model.Syntax Model.Value Model.Context Model.Eval.
+Require Import Spec.OpTable Spec.Grammar.   (* only for the last section: source order *)
 
 (* ---- pre-order ---- *)
 
@@ -174,3 +176,37 @@ Definition is_not_found (r : outcome value) : bool :=
    (they are arbitrary Coq functions value -> outcome value; they never see identifier names) *)
 Definition functions_never_not_found (c : ctx) : Prop :=
   forall f g a, In (f, g) (c_funs c) -> is_not_found (g a) = false.
+
+(* the weaker condition that renaming needs: no user function answers "variable not found" itself *)
+Definition functions_never_variable_not_found (c : ctx) : Prop :=
+  forall f g a x, In (f, g) (c_funs c) -> g a <> Err (EVariableIdentifierNotFound x).
+
+(* ---- source order (the grammar, its tokens and its trees are those of Spec/Grammar.v) ---- *)
+
+(* the class of an identifier in the source is decided by the token that follows it: an assignment
+   operator makes it a target, the start of an operand makes it an applied function, anything else
+   (an operator, a closing parenthesis, a separator, the end) a read variable *)
+Definition class_by_next (next : option token) : ident_class :=
+  match next with
+  | Some t => if assignment_token t then CWrite else if starts_operand t then CFunction else CRead
+  | None => CRead
+  end.
+
+(* the identifier occurrences of a token sequence, from left to right *)
+Fixpoint token_occurrences (ts : list token) : list occurrence :=
+  match ts with
+  | [] => []
+  | t :: ts' =>
+      match t with
+      | TIdentifier x => (class_by_next (hd_error ts'), x) :: token_occurrences ts'
+      | _ => token_occurrences ts'
+      end
+  end.
+
+(* the identifier operator of a class *)
+Definition op_of_class (k : ident_class) (x : str) : operator :=
+  match k with
+  | CWrite => OVariableIdentifierWrite x
+  | CFunction => OFunctionIdentifier x
+  | CRead => OVariableIdentifierRead x
+  end.
